@@ -995,6 +995,11 @@ class KafkaClient(object):
         if remove:
             for node_id in set(self._brokers) - set(brokers_by_id):
                 del self._brokers[node_id]
+            # ... also as group coordinators: the next request for such a
+            # group looks its coordinator up again
+            for group, coordinator in list(self._group_to_coordinator.items()):
+                if coordinator is not None and coordinator.node_id not in self._brokers:
+                    del self._group_to_coordinator[group]
             to_close = [self.clients.pop(node_id) for node_id in set(self.clients) - set(brokers_by_id)]
 
             if to_close:
